@@ -70,3 +70,63 @@ func forall(lo, hi int, f func(int) bool) bool {
 //@   ensures result != nil && result.Id == s.id && result.OperatorCheckpoints == s.operatorCheckpoints
 //@   ensures len(result.SourceCheckpoints) == 1 && result.SourceCheckpoints[0].CheckpointId == s.id &&
 //@           result.SourceCheckpoints[0].SplitStates == s.splitStates && result.SourceCheckpoints[0].SplitterState == s.splitterState
+
+// ---- Store: every method below holds stateMu for its whole body, so each
+// contract is an atomic transition of the guarded state (monitor argument).
+
+//@ func Store.CreateCheckpoint
+//@   property C12
+//@   nowrap
+//@   requires len(operatorIDs) >= 1
+//@   modifies s.state
+//@   ensures old(s.state.pendingSnapshot) != nil ==> result1 == ErrCheckpointInProgress && result0 == 0 && s.state == old(s.state)
+//@   ensures old(s.state.pendingSnapshot) == nil ==> result1 == nil && result0 == old(s.state.checkpointID) + 1 &&
+//@           s.state.checkpointID == result0 && s.state.pendingSnapshot != nil && s.state.pendingSnapshot.id == result0 &&
+//@           !s.state.pendingSnapshot.isSavepoint && s.state.completedSnapshots == old(s.state.completedSnapshots)
+
+//@ func Store.CreateSavepoint
+//@   property C12 C14
+//@   nowrap
+//@   requires len(operatorIDs) >= 1
+//@   modifies s.state, jobSnapshot.isSavepoint
+//@   ensures s.state.checkpointID >= old(s.state.checkpointID)
+//@   ensures (old(s.state.pendingSnapshot) != nil && old(s.state.pendingSnapshot.isSavepoint)) ==> result2 != nil && !result1 && s.state == old(s.state)
+//@   ensures (old(s.state.pendingSnapshot) != nil && !old(s.state.pendingSnapshot.isSavepoint)) ==> result2 == nil && !result1 &&
+//@           result0 == old(s.state.pendingSnapshot.id) && s.state == old(s.state) && s.state.pendingSnapshot.isSavepoint
+//@   ensures old(s.state.pendingSnapshot) == nil ==> result2 == nil && result1 && result0 == old(s.state.checkpointID) + 1 &&
+//@           s.state.checkpointID == result0 && s.state.pendingSnapshot != nil && s.state.pendingSnapshot.id == result0 && s.state.pendingSnapshot.isSavepoint
+
+//@ func Store.finishSnapshot
+//@   property C12
+//@   holds s.stateMu
+//@   requires snap != nil && snap.isComplete()
+//@   panics when len(s.sourceSplitters) != 1
+//@   modifies snap.splitterState
+
+//@ func Store.AddOperatorSnapshot
+//@   property C12
+//@   requires req != nil
+//@   modifies s.state, jobSnapshot.operatorIDsComplete, jobSnapshot.operatorCheckpoints, jobSnapshot.splitterState
+//@   ensures s.state.checkpointID == old(s.state.checkpointID) && s.state.completedSnapshots == old(s.state.completedSnapshots)
+//@   ensures (old(s.state.pendingSnapshot) == nil || old(s.state.pendingSnapshot.id) != req.CheckpointId) ==>
+//@           result != nil && s.state == old(s.state)
+//@   ensures (old(s.state.pendingSnapshot) != nil && old(s.state.pendingSnapshot.id) == req.CheckpointId) ==> result == nil &&
+//@           (s.state.pendingSnapshot == nil || s.state.pendingSnapshot == old(s.state.pendingSnapshot))
+//@   ensures (old(s.state.pendingSnapshot) != nil && s.state.pendingSnapshot == nil) ==> old(s.state.pendingSnapshot).isComplete()
+
+//@ func Store.AddSourceSnapshot
+//@   property C12
+//@   requires ckpt != nil
+//@   modifies s.state, jobSnapshot.sourceRunnerIDsComplete, jobSnapshot.splitStates, jobSnapshot.splitterState
+//@   ensures s.state.checkpointID == old(s.state.checkpointID) && s.state.completedSnapshots == old(s.state.completedSnapshots)
+//@   ensures (old(s.state.pendingSnapshot) == nil || old(s.state.pendingSnapshot.id) != ckpt.CheckpointId) ==>
+//@           result != nil && s.state == old(s.state)
+//@   ensures result != nil ==> s.state == old(s.state)
+//@   ensures (old(s.state.pendingSnapshot) != nil && s.state.pendingSnapshot == nil) ==> old(s.state.pendingSnapshot).isComplete()
+
+//@ func Store.CurrentCheckpoint
+//@   property C12 C13
+//@   modifies nothing
+//@   ensures len(s.state.completedSnapshots) == 0 ==> result == nil
+//@   ensures len(s.state.completedSnapshots) > 0 ==> result != nil && result.Id == s.state.completedSnapshots[len(s.state.completedSnapshots)-1].id &&
+//@           result.OperatorCheckpoints == s.state.completedSnapshots[len(s.state.completedSnapshots)-1].operatorCheckpoints
